@@ -23,20 +23,24 @@ Proof. exact (rust_ok_spec mm generated_items C07_generated). Qed.
 Theorem C07_committed_spec : rust_spec mm committed_items.
 Proof. exact (rust_ok_spec mm committed_items C07_committed). Qed.
 
-(* the mapping FUNCTION rs_of is defined on every flattened property of this metamodel, so "the mapped Rust type" below is a value *)
+(* the mapping FUNCTION rs_of is defined on every flattened property whose type is simple (LSP.Rust.simple_ty: no anonymous
+   non-empty literal and none of the shapes the mapping does not cover); for the other properties the relation rs_rel
+   applies (the helper struct of a literal is found by structure, its generated name is not part of the specification) *)
 Theorem C07_rs_of_total : rs_of_total mm = true.
 Proof. vm_compute. reflexivity. Qed.
 
-(* the struct clause, spelled out: same-named struct, serde names = flattened property names, type = rs_of, Option iff
-   optional or null-admitting, field gated iff the property is proposed *)
+(* the struct clause, spelled out: same-named struct, serde names = flattened property names, the field type is in the mapping
+   relation and IS rs_of's value when the property type is simple, Option iff optional or null-admitting, field gated iff the
+   property is proposed *)
 Definition struct_clause (items : list ritem) : Prop :=
   forall s, In s (structures mm) ->
   exists camel fs, In (RStruct (s_name s) true camel (s_proposed s) fs) items /\
     NoDup (map (serde_name camel) fs) /\
     (forall k, In k (map (serde_name camel) fs) <-> In k (map p_name (flat mm (s_name s)))) /\
-    (forall p, In p (flat mm (s_name s)) -> exists f r, In f fs /\ serde_name camel f = p_name p /\
-       rs_of mm (p_opt p) (p_type p) = Some r /\ unbox (f_ty f) = r /\
-       (is_option r = true <-> p_opt p || null_admitting (p_type p) = true) /\
+    (forall p, In p (flat mm (s_name s)) -> exists f, In f fs /\ serde_name camel f = p_name p /\
+       rs_rel mm items (p_opt p) (p_type p) (unbox (f_ty f)) /\
+       (simple_ty mm (p_type p) = true -> rs_of mm (p_opt p) (p_type p) = Some (unbox (f_ty f))) /\
+       (is_option (unbox (f_ty f)) = true <-> p_opt p || null_admitting (p_type p) = true) /\
        f_gated f = p_proposed p).
 
 Lemma struct_clause_of_ok items : rust_ok mm items = true -> struct_clause items.
@@ -44,9 +48,9 @@ Proof.
   intros H s Is. destruct (rust_ok_spec mm items H) as [_ [S _]].
   destruct (struct_spec_fields mm items s (S s Is)) as [camel [fs [I [N [Q F]]]]].
   exists camel, fs. repeat split; try assumption; try (apply Q).
-  intros p Ip. destruct (F p Ip) as [f [If [Nm [O [R G]]]]].
-  destruct (rs_of_total_spec mm C07_rs_of_total s Is p Ip) as [r Er].
-  exists f, r. rewrite <- (R r Er). repeat split; try assumption; try (apply O). rewrite (R r Er). exact Er.
+  intros p Ip. destruct (F p Ip) as [f [If [Nm [Rl [O [R G]]]]]].
+  exists f. repeat split; try assumption; try (apply O).
+  intros Sp. destruct (rs_of_total_spec mm C07_rs_of_total s Is p Ip Sp) as [r Er]. rewrite (R r Er). exact Er.
 Qed.
 
 Theorem C07_generated_structs : struct_clause generated_items.
